@@ -7,6 +7,7 @@
 use crate::ops::Op;
 use crate::view::*;
 use crate::world::*;
+use dashu_base::UnsignedAbs as _UAbs;
 use dashu_base::{DivEuclid as _DE, DivRemEuclid as _DRE, RemEuclid as _RE};
 use dashu_base::{Abs, Approximation, BitTest, Inverse, Sign, Signed, SquareRoot};
 use dashu_float::{round::mode, round::Round, Context, FBig, Repr};
@@ -471,6 +472,57 @@ where
             };
             ww.p[dst] = r;
             env.res(pid, dst);
+        }
+        "big" => {
+            // float arithmetic at precisions of thousands of digits (the integer routines behind it switch algorithms by
+            // word count): operator / Context forms, only a digest of the significand enters the pool
+            if cfg!(miri) {
+                return env.skip();
+            }
+            let sz = op.m.unsigned_abs() as usize;
+            let wide = |seed: &IBig, bits: usize| -> IBig {
+                let pat = (seed.clone().unsigned_abs() & UBig::ones(bits.min(4096))) | UBig::ONE;
+                let step = pat.bit_len() + (bits % 3);
+                let mut v = pat.clone();
+                while v.bit_len() < bits {
+                    v = (&v << step) ^ &pat;
+                }
+                IBig::from_parts(seed.sign(), (v & UBig::ones(bits - 1)) | (UBig::ONE << (bits - 1)))
+            };
+            let digits_to_bits = |d: usize| if B == 2 { d } else { d * 10 / 3 };
+            let prec = [2000usize, 4200, 6500, 9000][sz % 4];
+            let (px, py) = (prec, prec - (sz / 4) % (prec / 2));
+            let x: FBig<R, B> = FBig::from_parts(wide(&ip[a], digits_to_bits(px) - 3), -((sz % 700) as isize)).with_precision(px).value();
+            let y: FBig<R, B> = FBig::from_parts(wide(&ip[b], digits_to_bits(py) - 3), (sz % 90) as isize - 45).with_precision(py).value();
+            let ctx = Context::max(x.context(), y.context());
+            let r: FBig<R, B> = match (op.n.unsigned_abs() % 5, form % 2) {
+                (0, 0) => &x * &y,
+                (0, _) => ctx.mul(x.repr(), y.repr()).value(),
+                (1, 0) => &x / &y,
+                (1, _) => ctx.div(x.repr(), y.repr()).value(),
+                (2, 0) => x.sqr(),
+                (2, _) => ctx.sqr(x.repr()).value(),
+                (3, 0) => {
+                    if x.repr().sign() == Sign::Negative {
+                        (-x).sqrt()
+                    } else {
+                        x.sqrt()
+                    }
+                }
+                (3, _) => {
+                    let ax = if x.repr().sign() == Sign::Negative { -x } else { x };
+                    ax.context().sqrt(ax.repr()).value()
+                }
+                (_, 0) => &x + &y,
+                (_, _) => ctx.add(x.repr(), y.repr()).value(),
+            };
+            let m_digest = (UBig::ONE << 3999) + UBig::from(0x1234567u32);
+            env.emit_u64("digits", r.repr().digits() as u64);
+            env.emit_i64("exp", r.repr().exponent() as i64);
+            env.emit_u64("prec", r.precision() as u64);
+            let (sg, mag) = r.repr().significand().clone().into_parts();
+            ip[dst] = IBig::from_parts(sg, mag % m_digest);
+            env.res(Pool::I, dst);
         }
         "static" => {
             // values living in static memory (static_fbig! / static_dbig!): clone, clone_from, by-reference arithmetic
